@@ -108,7 +108,10 @@ class Init:
                 "pad": rng.choice([0, 0, 0, 0, 9000, 70000]),
                 # how an existing section is written: as `init` writes it, uniformly indented (legal in both syntaxes),
                 # `key=value` without blanks, or (TOML) with quoted keys
-                "sect_style": rng.choice(["plain", "plain", "plain", "indented", "tight", "quoted_keys", "tabs"])}
+                "sect_style": rng.choice(["plain", "plain", "plain", "indented", "tight", "quoted_keys", "tabs"]),
+                # leftovers of an interrupted earlier run or of an editor: not project files, must not matter
+                "stale": rng.choice([None, None, None, ["bumpver.toml.tmp"], ["setup.cfg.tmp", "pyproject.toml.tmp"],
+                                     ["bumpver.toml.bak", "pyproject.toml~"], [".bumpver.toml.swp", "pycalver.toml.tmp"]])}
 
     def run(self, case, ctx):
         layout = decode(case["point"])
@@ -145,6 +148,9 @@ class Init:
                 if files.get(name):
                     files[name] = padding + files[name]
             ctx.probe("long_config_file")
+        for name in case.get("stale") or []:
+            files[name] = section("bumpver.toml", "2019.1001")
+            ctx.probe("stale_scratch_file")
         invoker.write_tree(d, files)
         if case.get("vcs") == "git":
             import os
